@@ -48,6 +48,20 @@ CLAIMED["C10"] = (
     "exact arithmetic; exp/log and pd.Timedelta by contract stubs; timed gaps are integer multiples (0..2) of the halflife; pandas wrapping outside",
     "DESIGN.md 4 C10")
 
+CLAIMED["C05"] = (
+    "relational: for every boolean mask of the bound (enumerated), slice and symbolic integer-position mask, every reduction gives the result "
+    "of the same call on the filtered arrays; cumulative/rolling/shift/diff/head/tail/nth (and the time-weighted EMA) give at every selected "
+    "row the value computed on the filtered data; rows that are not selected (keys and values varied freely, symbolic mask) never influence a "
+    "selected row; the real code is its own oracle, data symbolic, N<=4 (quick) / N<=5 (thorough)",
+    "NumPy/numba models; exact arithmetic; one recorded finding (non-timed EMA ages its state on masked rows); mask splitting across key chunks is under C03/C13",
+    "DESIGN.md 4 C05")
+CLAIMED["C06"] = (
+    "relational: two runs that agree on all rows with a non-null key and differ arbitrarily (values, mask bits) on null-key rows give identical "
+    "group results and identical outputs on the other rows, for reductions (1 and 2 blocks), cumulative, rolling, shift/diff, head/tail/nth; "
+    "null-key rows of row-aligned outputs hold the operation's neutral marker; physically deleting the null-key rows (null positions enumerated) "
+    "changes nothing, incl. group_nearby_members; EMA rows with a null key get NaN and touch no state; N<=4,G<=2 (quick), N<=6,G<=3 (thorough)",
+    "NumPy/numba models; multi-key null propagation and chunk-local null codes are decided under C02/C13", "DESIGN.md 4 C06")
+
 NOT_APPLICABLE = {
     "C11": "labelling/order/shape are decided entirely by pandas Index/MultiIndex/DataFrame operations (C extension semantics); nothing symbolic to quantify over within reach of the encoder (DESIGN.md 5)",
     "C14": "margins and crosstab are reindex/groupby(level)/concat/unstack on pandas objects; not encodable (DESIGN.md 5)",
